@@ -165,11 +165,13 @@ def finish(rep, level, explanation, technique, assumptions=None, extra=None, exh
         print('  rule %-10s instances=%-4d failed=%-3d floor=%-3d %s' % (name, r['instances'], r['failed'], r['floor'], r['what']))
     for f, why in kf:
         print('KNOWN-FINDING: property=%s %s :: %s (%s)' % (rep.prop, f.ident(), f.msg, why))
-    if rep.broken:
+    if rep.broken and not viol:
         for b in rep.broken:
             print('ANALYSIS-BROKEN property=%s %s' % (rep.prop, b))
         return 2
     if viol:
+        for b in rep.broken:
+            print('note: analysis incomplete (%s); the violations below stand on their own' % b)
         os.makedirs(os.path.join(VERIF, 'replay'), exist_ok=True)
         for i, f in enumerate(viol):
             path = os.path.join(VERIF, 'replay', '%s-%d.json' % (rep.prop, i))
